@@ -805,7 +805,9 @@ impl Runner for LimiterRunner {
                 // (the harness treats both kinds that carry a source id as one)
                 let kind: &&str = if *kind == "h" { &"m" } else { kind };
                 let RecvSide { rt, recv } = r;
-                let Some((o, reported)) = rt.block_on(recv.deliver_reporting_source(addr, data, barrier_addr())) else {
+                // (no barrier datagram: nothing but the datagram under test passes through the receive path,
+                // so whatever it remembers from one datagram to the next stays as the script left it)
+                let Some((o, reported)) = rt.block_on(recv.deliver_quiet(addr, data, 24)) else {
                     out.push("!MON C18 recv-handler-stopped".into());
                     return out.push("panic".into());
                 };
@@ -1199,6 +1201,17 @@ fn gen_recv_case(rng: &mut Rng, thorough: bool, stats: &mut Stats) -> Vec<String
             ops.push(format!("lrin {} {} {} {} {}", now, ip, 1000 + rng.below(2), kind, rng.below(nnodes)));
         }
         ops.push(format!("lrin {} {} 1001 m {}", now, ip, rng.below(nnodes)));
+        if rng.chance(1, 2) {
+            // ... then what was awaited has arrived (or was given up): the very next datagrams from that
+            // port are refused again
+            stats.bump("gen.recv.directed-exemption-released-then-same-source");
+            ops.push(format!("lrin {} {} 1000 m {}", now, ip, rng.below(nnodes)));
+            ops.push(format!("lry {} 1000", ip));
+            for _ in 0..rng.range(1, 3) {
+                let kind = *rng.pick(&["g", "w", "m", "h"]);
+                ops.push(format!("lrin {} {} 1000 {} {}", now, ip, kind, rng.below(nnodes)));
+            }
+        }
     }
     let total = if thorough { rng.range(15, 50) } else { rng.range(15, 30) };
     for _ in 0..total {
